@@ -37,7 +37,9 @@ THEOREMS = [
     "PorepyVerif.C08.data_shift_is_store_step",
     "PorepyVerif.C08.window_any_sequence",
     "PorepyVerif.C08.window_any_sequence_depth",
+    "PorepyVerif.C08.unshift_spec",
     "PorepyVerif.C08.unshift_refines",
+    "PorepyVerif.C08.unshift_after_shift_any",
     "PorepyVerif.C08.unshift_after_shift",
     "PorepyVerif.C08.es_set_get_roundtrip",
     "PorepyVerif.C08.es_set_blocks",
@@ -85,7 +87,9 @@ TRUSTED = [
     "boundary values: update_boundary_condition / _revert_time_dependent_boundary_values are modelled on ONE boundary data dictionary "
     "(bcUpdate, bcRevert; the loop over mdg.boundaries() is not); they are called on the real classes with a stub `self` (mdg, "
     "time_step_indices); the revert moves arrays by reference and deletes the last slot - that this leaves no sharing is checked by the "
-    "oracle (np.shares_memory), not by the heap model",
+    "oracle (np.shares_memory), not by the heap model; the Lean un-shift is the REPAIRED one (dict rebuilt, total on stores with holes; "
+    "fixes/C08-revert-unshift-with-holes.diff) - until that fix is applied the entry-by-entry loop raises KeyError on stores with holes "
+    "(known finding revert-unshift-with-holes; model-vs-code comparison is skipped on exactly those cases)",
 ]
 EXPLANATION = (
     "FULL for the storage logic: the model is the dict index->array with set/add/get/shift exactly as branched in shift_solution_values "
@@ -655,9 +659,10 @@ def _ref_bc_revert(ref, names, is_err):
     if is_err:
         if not odd:
             return _fail("_revert_time_dependent_boundary_values raised on hole-free histories", "bc-revert-raises")
-        for n in names:
-            ref.st(TS, n).lose(); ref.st(IT, n).lose()
-        return None
+        # the un-shift must work on any index set (set_solution_values can create holes): index i -> i - 1, nothing raises,
+        # nothing is shared.  The entry-by-entry loop raises KeyError half-way and can leave two slots referring to one array.
+        return _fail("_revert_time_dependent_boundary_values raised on a time-step store with a hole "
+                     f"(quantities {odd}); slots already moved stay shared with their source", "revert-unshift-with-holes")
     for n in names:
         s_it, s_ts = ref.st(IT, n), ref.st(TS, n)
         if n in odd:
